@@ -40,7 +40,7 @@ import (
 var (
 	rxPunctuation      = regexp.MustCompile(`\s+([.?!,;])\s*(\S*)`)
 	rxTempNewline      = regexp.MustCompile(`\s*\|\\/\|\s*`)
-	rxDisplay          = regexp.MustCompile(`(?i)display:\s*([\w-]+)\s*(?:;|$)`)
+	rxDisplay          = regexp.MustCompile(`(?i)display:\s*([\w-]+)\s*(?:!\s*important\s*)?(?:;|$)`)
 	rxVisibilityHidden = regexp.MustCompile(`(?i)visibility:\s*(:?hidden|collapse)`)
 	rxSrcsetURL        = regexp.MustCompile(`(?i)(\S+)(\s+[\d.]+[xw])?(\s*(?:,|$))`)
 
@@ -511,7 +511,8 @@ func GetDisplayStyle(node *html.Node) string {
 	style := dom.GetAttribute(node, "style")
 	parts := rxDisplay.FindStringSubmatch(style)
 	if len(parts) >= 2 {
-		return parts[1]
+		// CSS keywords are case-insensitive
+		return strings.ToLower(parts[1])
 	}
 
 	// Use default display
